@@ -5,7 +5,13 @@ mod core;
 mod model;
 mod registry;
 
+mod c03;
 mod c04;
+mod c05;
+mod c08;
+mod c09;
+mod replicas;
+mod c10;
 
 use std::process::exit;
 
@@ -15,7 +21,12 @@ use crate::registry::DynPart;
 fn parts_for(id: &str) -> Option<(&'static str, Vec<Box<dyn DynPart>>, Vec<String>)> {
     let none: Vec<String> = vec![];
     Some(match id {
+        "C03" => ("C03", c03::parts(), none),
         "C04" => ("C04", c04::parts(), none),
+        "C05" => ("C05", c05::parts(), none),
+        "C08" => ("C08", c08::parts(), none),
+        "C09" => ("C09", c09::parts(), none),
+        "C10" => ("C10", c10::parts(), none),
         _ => return None,
     })
 }
